@@ -347,6 +347,9 @@ func (d *dagStoreImpl) Rename(oldID, newID string) error {
 	if err != nil {
 		return err
 	}
+	if newLoc != oldLoc && exists(newLoc) {
+		return fmt.Errorf("%w: %s", errDAGFileAlreadyExists, newLoc)
+	}
 	return os.Rename(oldLoc, newLoc)
 }
 
